@@ -698,9 +698,11 @@ def long_runs(rng, kind, to, thorough=False, base_id=800, fillers=None, lengths=
                     continue        # a further LSB undoes the previous one: repeating it is not a no-op
                 twp = {"reset": "C17", "repeat": None, "noncontrib": "C16", "noncontrib-cc": "C16", "system": "C16",
                        "sysex": "C16", "poll-same": None}.get(name, "C15")
-                out.append({"op": "new", "id": a, "k": kind, "to": to, "via": rng.choice(["new", "new", "default"]) if to == 0 else "new"})
+                via = rng.choice(["new", "new", "default"]) if to == 0 else "new"
+                out.append({"op": "new", "id": a, "k": kind, "to": to, "via": via})
                 if twp:
-                    out.append({"op": "new", "id": b, "k": kind, "to": to})
+                    # the twin is made the same way (new() = default() is C17's business, not C15's / C16's)
+                    out.append({"op": "new", "id": b, "k": kind, "to": to, "via": via if twp != "C17" else "new"})
                 for m in pre:
                     out.append({"op": "feed", "id": a, "m": m})
                     if twp and twp != "C17":
@@ -749,9 +751,11 @@ def long_runs(rng, kind, to, thorough=False, base_id=800, fillers=None, lengths=
 SPEC_TICK_CAP = 10_000_000      # harness/src/sut.rs: what the specification sees of one time step (ms)
 
 # clock readings (ms) at which a narrower representation of time would wrap or saturate
+# (2^32 ns, 2^16 ms, 2^31 / 2^32 us, 2^24 ms, 2^31 / 2^32 ms = 24.8 / 49.7 days).  Readings beyond 2^63 ns
+# (292 years) are left out on purpose: `std::time::Instant` itself cannot represent them on every platform,
+# so an implementation that keeps u64 / i64 nanoseconds is not at fault there.
 TIME_BOUNDARIES = [4294, 4295, 65535, 65536, 2147483, 2147484, 4294967, 4294968, 16777216,
-                   2**31, 2**32, 2**32 + 1000, 9223372036854, 9223372036855, 18446744073709, 18446744073710,
-                   2**53, 2**63 // 1000, 2**63, 2**64 - 10**6]
+                   2**31, 2**32, 2**32 + 1000, 2**33]
 
 
 def tick(iid, dt):
@@ -817,7 +821,7 @@ def far_times_twin(rng, n_segments, base_id=970, timeouts=(1, 5, 10)):
     out = []
     for s in range(n_segments):
         to = rng.choice(timeouts)
-        w = rng.choice(TIME_BOUNDARIES[:14])
+        w = rng.choice(TIME_BOUNDARIES)
         a, b = rng.sample(range(16), 2)
         ids = {a: base_id + 1, b: base_id + 2}
         for i in (base_id, base_id + 1, base_id + 2):
